@@ -199,4 +199,50 @@ theorem c02_load_list (junk : α) (fmt : Fmt) (files : List (List α)) (s : Nat)
 example : iterload 999 .h5 (List.range 10) 4 3 1 11 = some [[1, 4, 7]] := by decide
 example : iterload 999 .dcd (List.range 10) 2 3 0 11 = some [[0, 3], [6, 9]] := by decide
 
+/-! ### a strided read served in contiguous blocks
+
+A reader that fetches the file in blocks of `b` frames and takes every `s`-th frame of each block, starting at the block's own first frame
+(what a block-wise optimisation of a strided read does), returns `file[::s]` exactly when the stride phase survives each block boundary. -/
+
+/-- blocks of `b` frames, each strided from its own first frame -/
+def blockStrideAux (b s : Nat) : Nat → List α → List α
+  | 0, _ => []
+  | fuel + 1, l => if l.isEmpty then [] else everyNth s (l.take b) ++ blockStrideAux b s fuel (l.drop b)
+
+def blockStride (b s : Nat) (l : List α) : List α := blockStrideAux b s l.length l
+
+/-- one boundary at a multiple of the stride: the two halves strided separately give the whole -/
+theorem c02_block_boundary (s k : Nat) (hs : 1 ≤ s) (l : List α) :
+    everyNth s (l.take (k * s)) ++ everyNth s (l.drop (k * s)) = everyNth s l := by
+  rw [everyNth_take s hs, ← everyNth_drop s hs, List.take_append_drop]
+
+theorem blockStrideAux_spec (s k : Nat) (hs : 1 ≤ s) (hk : 1 ≤ k) :
+    ∀ (fuel : Nat) (l : List α), l.length ≤ fuel → blockStrideAux (k * s) s fuel l = everyNth s l := by
+  intro fuel
+  induction fuel with
+  | zero =>
+    intro l hl
+    have : l = [] := List.length_eq_zero_iff.mp (Nat.le_zero.mp hl)
+    subst this; simp [blockStrideAux]
+  | succ fuel ih =>
+    intro l hl
+    cases l with
+    | nil => simp [blockStrideAux]
+    | cons x xs =>
+      have hb : 1 ≤ k * s := Nat.mul_le_mul hk hs
+      have hlen : ((x :: xs).drop (k * s)).length ≤ fuel := by
+        simp only [List.length_drop, List.length_cons] at hl ⊢
+        omega
+      simp only [blockStrideAux, List.isEmpty_cons, Bool.false_eq_true, if_false]
+      rw [ih _ hlen, c02_block_boundary s k hs]
+
+/-- **block-wise strided reads are exact when the block length is a multiple of the stride** (every file, every such block length) -/
+theorem c02_block_stride (s k : Nat) (hs : 1 ≤ s) (hk : 1 ≤ k) (l : List α) : blockStride (k * s) s l = everyNth s l :=
+  blockStrideAux_spec s k hs hk l.length l (Nat.le_refl _)
+
+/-- … and only then: blocks of 4 frames with stride 3 return frames 0, 3, 4, 7, 8 of ten (one extra frame per boundary), not 0, 3, 6, 9 -/
+theorem c02_block_stride_witness :
+    blockStride 4 3 (List.range 10) = [0, 3, 4, 7, 8] ∧ everyNth 3 (List.range 10) = [0, 3, 6, 9] := by
+  refine ⟨by decide, by decide⟩
+
 end MdVerif
